@@ -237,6 +237,13 @@ def boundary_cases(vidx=0):
     add('fill_to,drained', Wd2, drain, {'op': 'fill_to', 'obj': 'K', 'solvent': 'water', 'q': '5 mL'}, 'accept')
     add('remove,drained', Wd2, drain, {'op': 'remove', 'obj': 'K', 'what': 'water'}, 'accept')
     add('transfer,into-drained', Wd2, drain, T('K2', 'K', '1 mL'), 'accept')
+    # a hair above what the stock holds: whichever way the decision falls, nothing impossible may come back (a 'tolerated'
+    # over-shoot is paid for with a negative amount of solvent)
+    for f in ('1.0002', '1.00003', '1.000001'):
+        for solvent in ('water', 'dmso'):
+            add(f"create_solution_from,hair-above-stock,{'own' if solvent == 'water' else 'foreign'}-solvent", Wx, [],
+                {'op': 'create_solution_from', 'src': 'K', 'solute': 'nacl', 'conc': f'@cur@{f}@M', 'solvent': solvent, 'q': '1 mL',
+                 'name': 'N'}, 'either')
     return cases
 
 
@@ -269,7 +276,7 @@ def symbolic(pp, subs, world, act):
     c = act.get('conc', '')
     if c.startswith('@'):
         _, mode, f, cu = c.split('@')
-        obj = world[act['obj']]
+        obj = world[act.get('obj') or act['src']]
         mult, num, den = ref.parse_concentration('1 ' + cu)
         solute, solvent = subs[act['solute']], subs[act['solvent']]
         if mode == 'cur':
@@ -281,7 +288,7 @@ def symbolic(pp, subs, world, act):
             contents = dict(obj.contents)
             contents[solvent] = contents.get(solvent, 0) + float(ref.to_stored(pp, rs, add_mol))
             val = ref.conc(pp, contents, solute, num, den) / mult
-        act['conc'] = f"{float(val):.9g} {cu}"
+        act['conc'] = f"{float(val):.12g} {cu}"
     return act
 
 
